@@ -520,14 +520,29 @@ fn define_inherent_impl(
         );
     }
 
-    // Insert or extend the impl def
+    // Insert or extend the impl def. A method that an earlier inherent impl block of the same
+    // type already defines must not silently replace it: both definitions would compile to one
+    // function name and calls would run whichever block came last.
     let impl_def = env
         .current_mut()
         .trait_env
         .inherent_impls
         .entry(key)
         .or_default();
-    impl_def.methods.extend(methods_to_add);
+    for (method_name, scheme) in methods_to_add {
+        if impl_def.methods.contains_key(&method_name) {
+            diagnostics.push(Diagnostic::new(
+                Stage::Typer,
+                Severity::Error,
+                format!(
+                    "Method {} is already defined in another inherent impl for {:?}",
+                    method_name, for_ty
+                ),
+            ));
+            continue;
+        }
+        impl_def.methods.insert(method_name, scheme);
+    }
 }
 
 fn define_function(env: &mut PackageTypeEnv, diagnostics: &mut Diagnostics, func: &hir::Fn) {
